@@ -4,9 +4,33 @@ import Rustemo.Proofs.FrontStart
 -/
 namespace Rustemo.Front
 
-theorem resolveRhs_noStop {terms : SMap Term} {nts : List NonTerm} {p : GProd} {n : Nat} :
-    ∀ {l l' : List RAssign}, resolveRhs true terms nts p n l = .ok l' →
-      ∀ a, a ∈ l → a.index = none → a.sym ≠ .name kSTOP
+/-- names `resolve_references` refuses in the variant `se` -/
+def Banned (se : RFlags) (n : Name) : Prop :=
+  (se.reserved = true ∧ (n = kAUG ∨ n = kAUGL)) ∨ (se.stop = true ∧ n = kSTOP)
+
+theorem resolveSym_banned {se : RFlags} {terms : SMap Term} {nts : List NonTerm} {p : GProd} {k : Nat}
+    {a x : RAssign} {n : Name} (hb : Banned se n) (hi : a.index = none) (hs : a.sym = .name n)
+    (hx : resolveSym se terms nts p k a = .ok x) : False := by
+  unfold resolveSym at hx
+  rw [hi, hs] at hx
+  simp only at hx
+  rcases hb with ⟨h1, h2⟩ | ⟨h1, h2⟩
+  · have : (se.reserved && (n == kAUG || n == kAUGL)) = true := by
+      rw [h1]
+      rcases h2 with rfl | rfl <;> decide
+    rw [if_pos this] at hx
+    cases hx
+  · split at hx
+    · cases hx
+    · have : (se.stop && n == kSTOP) = true := by
+        rw [h1, h2]
+        decide
+      rw [if_pos this] at hx
+      cases hx
+
+theorem resolveRhs_noName {se : RFlags} {terms : SMap Term} {nts : List NonTerm} {p : GProd} {k : Nat} {n : Name}
+    (hb : Banned se n) : ∀ {l l' : List RAssign}, resolveRhs se terms nts p k l = .ok l' →
+      ∀ a, a ∈ l → a.index = none → a.sym ≠ .name n
   | [], _, _, a, ha => by simp at ha
   | b :: bs, l', h, a, ha => by
     unfold resolveRhs at h
@@ -14,22 +38,20 @@ theorem resolveRhs_noStop {terms : SMap Term} {nts : List NonTerm} {p : GProd} {
     obtain ⟨xs, hxs, h⟩ := Outcome.bind_eq_ok.mp h
     rcases List.mem_cons.mp ha with rfl | ha
     · intro hi hs
-      unfold resolveSym at hx
-      rw [hi, hs] at hx
-      simp at hx
-    · exact resolveRhs_noStop hxs a ha
+      exact resolveSym_banned hb hi hs hx
+    · exact resolveRhs_noName hb hxs a ha
 
-theorem resolveRefs_noStop {terms : SMap Term} {nts : List NonTerm} :
-    ∀ {ps ps' : List GProd}, resolveRefs true terms nts ps = .ok ps' →
-      ∀ p, p ∈ ps → ∀ a, a ∈ p.rhs → a.index = none → a.sym ≠ .name kSTOP
+theorem resolveRefs_noName {se : RFlags} {terms : SMap Term} {nts : List NonTerm} {n : Name} (hb : Banned se n) :
+    ∀ {ps ps' : List GProd}, resolveRefs se terms nts ps = .ok ps' →
+      ∀ p, p ∈ ps → ∀ a, a ∈ p.rhs → a.index = none → a.sym ≠ .name n
   | [], _, _, p, hp => by simp at hp
   | q :: qs, ps', h, p, hp => by
     unfold resolveRefs at h
     obtain ⟨rhs, h1, h⟩ := Outcome.bind_eq_ok.mp h
     obtain ⟨rs, h2, h⟩ := Outcome.bind_eq_ok.mp h
     rcases List.mem_cons.mp hp with rfl | hp
-    · exact resolveRhs_noStop h1
-    · exact resolveRefs_noStop h2 p hp
+    · exact resolveRhs_noName hb h1
+    · exact resolveRefs_noName hb h2 p hp
 
 theorem resolveInline_spec {mm : SMap (Name × Nat)} :
     ∀ {ps ps' : List GProd}, resolveInline mm ps = .ok ps' →
@@ -44,10 +66,9 @@ theorem resolveInline_spec {mm : SMap (Name × Nat)} :
     cases h
     exact .cons (all2_imp (fun a a' r => ⟨r.2.1, r.2.2.2.1⟩) (resolveInlineRhs_spec h1)) (resolveInline_spec h2)
 
-/-- no production of a grammar built by a variant with `stopRefErr` references `STOP` by name
-(no hypothesis on the file) -/
-theorem build_noStop {fx : Fixes} {f : File} {g : Grammar} (hf : fx.stopRefErr = true) (h : build fx f = .ok g) :
-    ∀ p, p ∈ g.prods → ∀ a, a ∈ p.rhs → a.sym ≠ .name kSTOP := by
+/-- no production of a built grammar references a name the variant refuses (no hypothesis on the file) -/
+theorem build_noName {fx : Fixes} {f : File} {g : Grammar} {n : Name} (hb : Banned fx.rflags n)
+    (h : build fx f = .ok g) : ∀ p, p ∈ g.prods → ∀ a, a ∈ p.rhs → a.sym ≠ .name n := by
   obtain ⟨ph⟩ := build_phases h
   have hp2 : g.prods = ph.ps2 := by
     obtain ⟨_, _, _, _, e0⟩ := assemble_ok ph.hg0
@@ -62,7 +83,6 @@ theorem build_noStop {fx : Fixes} {f : File} {g : Grammar} (hf : fx.stopRefErr =
       simp at hp
     · exact extract_allNone hext
   have h2 := ph.h2
-  rw [hf] at h2
   intro p' hp' a' ha' hs
   rw [hp2] at hp'
   obtain ⟨p1, hp1, rhs', e, rr⟩ := all2_mem' (resolveRefs_rel h2).1 p' hp'
@@ -70,10 +90,21 @@ theorem build_noStop {fx : Fixes} {f : File} {g : Grammar} (hf : fx.stopRefErr =
   obtain ⟨a1, ha1, r1⟩ := all2_mem' rr a' ha'
   obtain ⟨p0, hp0, r0⟩ := all2_mem' (resolveInline_spec ph.h1) p1 hp1
   obtain ⟨a0, ha0, r00⟩ := all2_mem' r0 a1 ha1
-  have hs1 : a1.sym = .name kSTOP := by rw [← r1.2.1]; exact hs
+  have hs1 : a1.sym = .name n := by rw [← r1.2.1]; exact hs
   have hi1 : a1.index = none := by
-    rw [r00.2 kSTOP (r00.1 ▸ hs1)]
+    rw [r00.2 n (r00.1 ▸ hs1)]
     exact hnone p0 hp0 a0 ha0
-  exact resolveRefs_noStop h2 p1 hp1 a1 ha1 hi1 hs1
+  exact resolveRefs_noName hb h2 p1 hp1 a1 ha1 hi1 hs1
+
+/-- no production of a grammar built by a variant with `stopRefErr` references `STOP` by name -/
+theorem build_noStop {fx : Fixes} {f : File} {g : Grammar} (hf : fx.stopRefErr = true) (h : build fx f = .ok g) :
+    ∀ p, p ∈ g.prods → ∀ a, a ∈ p.rhs → a.sym ≠ .name kSTOP :=
+  build_noName (Or.inr ⟨hf, rfl⟩) h
+
+/-- no production of a grammar built by a variant with `reservedRefErr` references `AUG` or `AUGL` -/
+theorem build_noAug {fx : Fixes} {f : File} {g : Grammar} (hf : fx.reservedRefErr = true) (h : build fx f = .ok g) :
+    ∀ p, p ∈ g.prods → ∀ a, a ∈ p.rhs → a.sym ≠ .name kAUG ∧ a.sym ≠ .name kAUGL :=
+  fun p hp a ha => ⟨build_noName (Or.inl ⟨hf, Or.inl rfl⟩) h p hp a ha,
+                    build_noName (Or.inl ⟨hf, Or.inr rfl⟩) h p hp a ha⟩
 
 end Rustemo.Front
